@@ -161,10 +161,20 @@ fn detail_of(e: &EvalErrorKind) -> String {
             label.diagnostics.iter().map(|d| d.message.clone()).collect::<Vec<_>>()
         ),
         Other(msg, _) | InternalError(msg, _) => msg.clone(),
-        other => {
-            let s = format!("{other:?}");
-            s.chars().take(160).collect()
-        }
+        // never Debug-print an error that embeds values: labels reach their argument thunk, whose
+        // closure may reach the label again (the derived Debug then recurses forever)
+        MergeIncompatibleArgs { .. } => "non mergeable".into(),
+        IncomparableValues { .. } => "incomparable".into(),
+        MissingFieldDef { id, .. } => format!("missing definition for {}", id.label()),
+        NotEnoughArgs(n, op, _) => format!("{op} needs {n} arguments"),
+        InfiniteRecursion(..) => "infinite recursion".into(),
+        IllegalPolymorphicTailAccess { .. } => "polymorphic tail access".into(),
+        FailedDestructuring { .. } => "failed destructuring".into(),
+        QueryNonRecord { .. } => "query non record".into(),
+        ParseError(_) => "parse error".into(),
+        SerializationError(_) => "serialization error".into(),
+        DeserializationError(f, m, _) => format!("deserialization {f}: {m}"),
+        DeserializationErrorWithInner { .. } => "deserialization error".into(),
     };
     s.replace(['\n', '\t'], " ")
 }
